@@ -138,6 +138,8 @@ static ucontext_t g_sched_ctx;
 static long g_countdown = 0;
 static int g_in_window = 0;
 static uint32_t g_epoch = 1; /* synchronisation epoch of the conflict detector */
+static unsigned int g_pool_mxcsr = 0x1F80;
+static unsigned short g_pool_cwd = 0x037F;
 static int g_active = 0; /* between begin/end */
 static uint64_t g_window_salt = 0;
 static void *g_stacks[MAX_TEAM];
@@ -718,6 +720,16 @@ static void parallel_impl(void (*fn)(void *), void *data, unsigned num_threads,
         uintptr_t p = (uintptr_t)th;
         makecontext(&th->ctx, (void (*)(void))tramp, 2, (unsigned)(p >> 32),
                     (unsigned)(p & 0xffffffffu));
+#if defined(__x86_64__)
+        /* the floating-point environment is per thread: the master (thread 0) runs with the
+         * caller's, the workers with the one they inherited when the pool was created (the
+         * first region of the process, see simgomp_reset_fpenv) - a caller that sets
+         * flush-to-zero or a rounding mode just before a region does not set it for the team */
+        if (i > 0 && th->ctx.uc_mcontext.fpregs) {
+            th->ctx.uc_mcontext.fpregs->mxcsr = g_pool_mxcsr;
+            th->ctx.uc_mcontext.fpregs->cwd = g_pool_cwd;
+        }
+#endif
     }
     g_team = t;
     g_in_window = t->window;
@@ -729,6 +741,19 @@ static void parallel_impl(void (*fn)(void *), void *data, unsigned num_threads,
     g_team = NULL;
     g_cur = NULL;
     free_ws(t);
+}
+
+/* floating-point environment of the worker pool (x86-64): default IEEE unless the harness
+ * says otherwise */
+void simgomp_reset_fpenv(void) {
+#if defined(__x86_64__)
+    unsigned int m = 0x1F80;
+    unsigned short c = 0x037F;
+    __asm__ volatile("ldmxcsr %0" : : "m"(m));
+    __asm__ volatile("fldcw %0" : : "m"(c));
+    g_pool_mxcsr = m;
+    g_pool_cwd = c;
+#endif
 }
 
 /* ------------------------------------------------------------------------------ */
